@@ -262,6 +262,9 @@ func DiskTerms(evs []*scorch.VerifEvent, n *strace.Namer, ver strace.VersionOf) 
 				copy(out[pos+1:], out[pos:])
 				out[pos] = ditem{term: "XRecover"}
 				sessionStart = pos + 1
+				// a new life of the process: segment ids restart above the largest id on disk, so
+				// ids that were allocated before the crash but never reached the disk can be reused
+				knownSids = map[uint64]bool{}
 				published = map[uint64]bool{}
 				haveInitial = false
 				if len(e.Args) > 0 {
